@@ -35,6 +35,8 @@ func init() {
 			{ID: "C08-R10", Title: "integers handed back to Go do not pass through float64", Floor: 3, Run: intNotThroughFloat},
 			{ID: "C08-R11", Title: "run-time filled converter tables are consulted only as memos", Floor: 2, Run: memoTablesAreOnlyMemos},
 			{ID: "C08-R12", Title: "objects registered before they are complete are not read by what the constructor calls", Floor: 1, Run: publishedBeforeComplete},
+			{ID: "C08-R13", Title: "results of reflect.Value.Interface() are not asserted blindly", Floor: 1, Run: reflectedValuesNotAssertedBlindly},
+			{ID: "C08-R14", Title: "reflect.TypeOf of a handed-in value is guarded against nil", Floor: 1, Run: typeOfGuardedAgainstNil},
 		},
 	})
 }
